@@ -50,8 +50,10 @@ fn scenario(rng: &mut Rng, n: usize, idx: usize) -> Scenario {
     let seed = rng.below(1000);
     let k = *rng.pick(&[0usize, 0, 1, 7, 64, 512]);
     let t = rng.below(4) as usize;
-    let data = gen_stream(n, seed, k, t);
-    let genc = format!("gen {n} {seed} {k} {t}");
+    // white space other than newlines at the end of the payload must survive a command substitution
+    let w = *rng.pick(&[0usize, 0, 0, 1, 2, 5]);
+    let data = gen_stream(n, seed, k, t, w);
+    let genc = format!("gen {n} {seed} {k} {t} {w}");
     match idx % 6 {
         0 | 1 => {
             // gen | relay* | sink
@@ -116,7 +118,7 @@ fn scenario(rng: &mut Rng, n: usize, idx: usize) -> Scenario {
         }
         4 => {
             // quoted here-document: body verbatim (lines of the stream; must end with a newline)
-            let mut body = gen_stream(n, seed, if k == 0 { 61 } else { k }, 0);
+            let mut body = gen_stream(n, seed, if k == 0 { 61 } else { k }, 0, 0);
             if body.last() != Some(&b'\n') {
                 body.push(b'\n');
             }
@@ -287,4 +289,4 @@ pub fn run(ctx: &Ctx) {
     ctx.assume("the shell-loop relay (while read) is only used on streams made of complete lines");
 }
 
-pub const RULE: &str = "scenarios: gen|sink with 0-3 relay stages (builtin relays with 37-byte reads, `while read` loops), v=$(gen) in three forms incl. nested substitution, substitution around a pipeline, quoted and expanding here-documents into sink; payload sizes 0,1,2, 36-38 and every value within +-2 of 511/512/1023/1024/2047/2048/4096 (thorough: up to 10000), newline every 0/1/7/64/512 bytes, 0-3 trailing newlines; each scenario under FIFO, 12 (quick) / 40 random schedules preempting inside read/write/read_all/write_all with 15-95% probability, and for payloads <= 1030 bytes a bounded depth-first enumeration with <= 3 preemptions. Conservation oracle: (length, hash) at the consumer = producer's stream; $(...) = stream minus exactly its trailing newlines. evaluations = runs; distinct_nontrivial = distinct (scenario, poll-order trace) pairs";
+pub const RULE: &str = "scenarios: gen|sink with 0-3 relay stages (builtin relays with 37-byte reads, `while read` loops), v=$(gen) in three forms incl. nested substitution, substitution around a pipeline, quoted and expanding here-documents into sink; payload sizes 0,1,2, 36-38 and every value within +-2 of 511/512/1023/1024/2047/2048/4096 (thorough: up to 10000), newline every 0/1/7/64/512 bytes, 0-3 trailing newlines preceded by 0-5 other white-space bytes (space, tab, CR, VT, FF); each scenario under FIFO, 12 (quick) / 40 random schedules preempting inside read/write/read_all/write_all with 15-95% probability, and for payloads <= 1030 bytes a bounded depth-first enumeration with <= 3 preemptions. Conservation oracle: (length, hash) at the consumer = producer's stream; $(...) = stream minus exactly its trailing newlines. evaluations = runs; distinct_nontrivial = distinct (scenario, poll-order trace) pairs";
